@@ -489,6 +489,12 @@ class C14(vlib.Driver):
                 lg = [[1e4, -1e4, 0.0, 1e4][(j + len(m)) % 4] for j in range(n)]
                 out.append({"fam": "ppo_disc", "space": "discrete", "nvec": [n], "logits": lg, "masks": [m, [1] * n], "single": False,
                             "training": False, "seeds": 8, "oseed": rng.randrange(10 ** 6), "extreme": True})
+        # state across calls: a masked call followed by a mask-free call on the same agent
+        for n in (2, 3, 4):
+            for k in range(2):
+                am = [all_masks(n)[(k * 3 + r) % len(all_masks(n))] for r in range(2)]
+                out.append({"fam": "ppo_disc", "space": "discrete", "nvec": [n], "logits": [0.0] * n, "masks": None, "B": 2, "single": False,
+                            "training": bool(k), "seeds": 8, "oseed": rng.randrange(10 ** 6), "after_masks": am})
         # Gaussian head with log-std outside [-20, 2]; huge exploration noise
         for bname in ("asym", "perdim", "f64"):
             for ls in (-30.0, 3.0, 10.0):
@@ -1322,6 +1328,8 @@ class C14(vlib.Driver):
         B = len(case["masks"]) if case["masks"] is not None else case["B"]
         obs = make_obs(okind, B, case["single"], random.Random(case["oseed"]))
         mask = mask_array(case["masks"], case["single"], case.get("maskfmt"))
+        if case.get("after_masks") is not None:      # an earlier call on the same agent WITH a mask must not leak into this one
+            self.call(lambda: ag.get_action(obs, action_mask=np.array(case["after_masks"])))
         acts, support, err = [], None, None
         for sd in range(case["seeds"]):
             torch.manual_seed(case["oseed"] + sd)
